@@ -3,7 +3,7 @@ import PrefVerif.Lemmas.C16Ballot
 # C16 — the normal form after an autocorrect parse, and the merge of the ballot lines
 -/
 namespace PrefVerif.C16
-open PrefVerif PrefVerif.Py PrefVerif.InstanceIO PrefVerif.Spec PrefVerif.IOL
+open PrefVerif PrefVerif.Py PrefVerif.InstanceIO PrefVerif.Spec PrefVerif.IOL PrefVerif.IOLw
 
 /-- the three stages of a successful ordinal autocorrect parse -/
 theorem ord_parse_true_ok (i0 j : OrdinalIO.OrdInst) (lines : List Str)
